@@ -11,7 +11,7 @@
 From Coq Require Import List ZArith String.
 Import ListNotations.
 From Verif Require Import Common.Base Common.JsepNumeral Model.JsepMid Model.JsepMidSpec
-  Proofs.JsepMid Proofs.JsepMidGen Proofs.JsepMidWit Proofs.JsepMidStable.
+  Proofs.JsepMid Proofs.JsepMidGen Proofs.JsepMidWit Proofs.JsepMidStable Proofs.JsepMidChain.
 Open Scope string_scope.
 Open Scope list_scope.
 
@@ -65,6 +65,31 @@ Theorem c09_round_partial : forall s d1 ra ops s2 d2,
 Proof. exact round_extends_lemma. Qed.
 Print Assumptions c09_round_partial.
 
+(* (2), whole histories.  applied ops lists, in order, the mid lists of the
+   descriptions the history applies on this peer: pc.lastOffer / pc.lastAnswer at
+   an accepted SetLocalDescription(offer / pranswer / answer), the given
+   description at an accepted SetRemoteDescription.  For any two of them, the
+   later one extends the earlier one: every mid of the earlier description stands
+   at the same index in the later one, which has pairwise distinct mids; what is new
+   comes after.  hist_guard (Model/JsepMidSpec.v chain_guard at every call)
+   excludes exactly the recorded causes: the duplicate-mid causes of C06 (its guard
+   at every CreateOffer / CreateAnswer), remote sections that are skipped because
+   they are unusable, stale descriptions (SetLocalDescription applying an offer
+   created before the last description was applied, or an answer created for an
+   earlier remote offer: pion accepts both, the oracle sets such histories aside),
+   and a remote side that does not do its part (its offers extend the description
+   applied last, its answers list the offered mids).  Operations: AddTransceiver,
+   AddTrack, RemoveTrack, Stop, CreateDataChannel, CreateOffer, CreateAnswer,
+   SetLocal / SetRemote with offer, pranswer, answer, in any interleaving. *)
+Theorem c09_position_stable_history_partial : forall ops,
+  hist_guard ops ->
+  forall i j di dj, (i < j)%nat ->
+    nth_error (applied ops) i = Some di -> nth_error (applied ops) j = Some dj ->
+    (exists extra, dj = di ++ extra) /\ NoDup dj /\
+    (forall m x y, nth_error di x = Some m -> nth_error dj y = Some m -> x = y).
+Proof. exact chain_lemma. Qed.
+Print Assumptions c09_position_stable_history_partial.
+
 (* (3): a mid CreateOffer gives a transceiver differs from every mid of the
    current remote description (while greaterMid does not overflow) ... *)
 Theorem c09_no_reuse_partial : forall s i t t' r,
@@ -111,3 +136,12 @@ Example c09_partial_nontrivial :
     (forall r, In r (r_secs rd) -> usable r = true) /\ codecs_ok st_reneg /\ offer_nowrap st_reneg = true /\
     sec_mids d = [Some "0"; Some "1"; Some "2"; Some "cam2"; Some "3"].
 Proof. exact ex_c09_extension. Qed.
+
+(* the guard of the chain theorem holds on a history of three exchanges started
+   from both sides (tracks and transceivers added, removed and stopped, a data
+   channel, a remote and a local provisional answer, offers re-created before they
+   are applied); it applies eight descriptions of 4, 4, 4, 5, 5, 5, 8 and 8 sections *)
+Example c09_chain_nontrivial :
+  hist_guard ex_chain /\
+  map (@List.length _) (applied ex_chain) = [4; 4; 4; 5; 5; 5; 8; 8]%nat.
+Proof. exact ex_chain_ok. Qed.
